@@ -8,7 +8,8 @@ ID = 'C20'
 LEVEL = 'exploration'
 RULE = ('case = (programs of 2-3 threads, each 1-2 pformat calls on: an instance of a class whose printer is registered by '
         'name and not yet promoted (fresh class and key per case, so the first use happens in every schedule), an instance '
-        'of a subclass of such a class, of a directly registered class, of an unregistered class, of a fresh struct-sequence '
+        'of a subclass of such a class, of a directly registered class, of an unregistered class, long strings that are split into '
+        'words and measured (after a text of 300 other words has been printed in the process), of a fresh struct-sequence '
         'look-alike (field names resolved and cached on first print), lists/dicts holding them, optionally with per-call width / '
         'ribbon settings that differ between the threads; '
         'schedule = list of (thread, number of package lines to run)). A deterministic scheduler built on sys.settrace '
@@ -25,14 +26,19 @@ ASSUMPTIONS = ['interleavings are explored at package-line granularity under the
 BUDGET = {'quick': {'random': 1600, 'shards': 16}, 'thorough': {'random': 60000, 'shards': 16}}
 
 KINDS = ['lazy', 'sub', 'direct', 'unreg', 'list-lazy', 'list-sub', 'dict-lazy', 'lazy2', 'subsub', 'seq', 'list-seq',
-         'list-direct@12', 'list-lazy@9', 'list-sub@25', 'dict-lazy@7', 'list-direct@60']
+         'list-direct@12', 'list-lazy@9', 'list-sub@25', 'dict-lazy@7', 'list-direct@60', 'str@40', 'str2@30', 'list-str@40']
 PAIRS = [
     (['lazy'], ['lazy']), (['list-lazy'], ['list-lazy']), (['sub'], ['lazy']), (['lazy'], ['sub']), (['sub'], ['sub']),
     (['list-sub'], ['list-lazy']), (['dict-lazy'], ['list-sub']), (['lazy', 'lazy'], ['sub']), (['subsub'], ['sub']),
     (['lazy'], ['lazy2']), (['direct'], ['lazy']), (['unreg'], ['list-lazy']), (['lazy'], ['unreg']),
     (['seq'], ['seq']), (['list-seq'], ['seq']), (['seq', 'lazy'], ['list-seq']),
     (['list-direct@12'], ['list-direct@40']), (['list-lazy@9', 'list-lazy@30'], ['list-sub@20']), (['dict-lazy@7'], ['list-seq@60']),
+    (['str@40'], ['str2@40']), (['str@40'], ['str@40']), (['list-str@30'], ['str2@40']),
 ]
+# long strings are split into words and measured while they are laid out; before such programs run, a text of many other
+# words is printed (the process has printed unrelated things before)
+STR = {'str': ' '.join('alpha%02d' % i for i in range(12)), 'str2': ' '.join('beta%02d' % i for i in range(12))}
+FILLER = ' '.join('filler%03d' % i for i in range(300))
 _uid = itertools.count()
 _cache = {}
 
@@ -73,6 +79,8 @@ def make_value(kind, fam):
         return {'k': make_value(kind[5:], fam)}
     if kind == 'seq':
         return fam['seq']((1, 2, 3))
+    if kind in STR:
+        return STR[kind]
     return fam[kind]()
 
 
@@ -96,6 +104,9 @@ def make_programs(progs, fam):
 def run_schedule(progs, schedule, record=False):
     fam = fresh()
     programs = make_programs(progs, fam)
+    if any('str' in kind for prog in progs for kind in prog):
+        from prettyprinter import pformat
+        pformat(FILLER, width=60)
     r = sched.Run(programs, schedule, record=record)
     with warnings.catch_warnings():
         warnings.simplefilter('ignore')
